@@ -103,7 +103,7 @@ CHECKS = {
     "C10": dict(
         engine=E3 + " + " + E2, category="model_checking", design="§4 C10",
         technique="exhaustive enumeration of call histories on one TheJoker, each executed three times (equal seeds twice, different global random state once) with bitwise output comparison and global-state probes; pool-schedule enumeration; forced-collision stream test",
-        text="All histories to depth 2/3 over 8 API operations (incl. prior samples by count, both paths, iterative sampler, prior.sample with and without linear parameters) are run "
+        text="All histories to depth 2/3 over 9 API operations (incl. prior samples by count, both paths, iterative sampler, prior.sample with and without linear parameters and with the generator under its deprecated keyword) are run "
              "from equal seeds twice and once with different numpy/Python global seeds: outputs bitwise equal per step, global states untouched, "
              "different seed changes the output; file-path operations are bitwise equal across 8 modelled pool schedules and real MultiPool(2); "
              "identical always-accepted rows in different batches and repeated calls never repeat a linear draw; no value drawn by one call of a history re-appears in a later call; the same histories in child interpreters with other PYTHONHASHSEEDs give identical digests; one large request never repeats a draw.",
